@@ -1,5 +1,6 @@
 """C08 - client lifecycle (DESIGN.md 5/C08)."""
 from . import clirules as C
+from . import C02
 
 from .meta import meta
 META = meta('C08', level='other', extra_tb=None)
@@ -24,3 +25,6 @@ def check(A):
         C.write_loop_sentinel_rule(A, cf, 'C08')
         C.client_factory_rule(A, cf, 'C08')
         C.http_session_rule(A, cf, 'C08')
+    # 'undecodable reply -> ConnectionError / transport error' rests on the decoder refusing
+    # what is not a sequence of packets
+    C02.check(A, only_decode=True, prefix='C08')
